@@ -913,3 +913,33 @@ mod tests {
         );
     }
 }
+
+/// Size accessors for the verification hook `verif_hooks::machine_footprint` (add-only).
+#[cfg(feature = "verif")]
+impl Arena {
+    /// (live slabs, slabs tagged `LiveLoadState`, slabs tagged `InactiveLoadState`,
+    /// slabs tagged `Dropped`).
+    pub(crate) fn verif_slab_counts(&self) -> (usize, usize, usize, usize) {
+        let mut count = 0;
+        let mut live = 0;
+        let mut inactive = 0;
+        let mut dropped = 0;
+        let mut slab = self.base.as_ref();
+
+        while let Some(current_slab) = slab {
+            let current_slab = unsafe { current_slab.slab.as_ref() };
+
+            count += 1;
+            match current_slab.header.get_tag() {
+                ArenaHeaderTag::LiveLoadState => live += 1,
+                ArenaHeaderTag::InactiveLoadState => inactive += 1,
+                ArenaHeaderTag::Dropped => dropped += 1,
+                _ => {}
+            }
+
+            slab = current_slab.next.as_ref();
+        }
+
+        (count, live, inactive, dropped)
+    }
+}
